@@ -12,6 +12,7 @@ type instCtx struct {
 	e       *Engine
 	mulPool map[string][]*Term // ground x occurring as bvmul(x, c), keyed by c
 	pool    map[*Sort][]*Term // candidate index terms by array sort of the select they occur under
+	fam     map[string][]*Term // ... and by array family (the heap component the array is a version of)
 	appArgs map[string][][]*Term
 	seenIdx map[*Term]bool
 	skolems []*Term
@@ -60,6 +61,17 @@ func (ic *instCtx) collect(t *Term, visited map[*Term]bool) {
 			}
 			if !found {
 				ic.pool[s] = append(ic.pool[s], idx)
+			}
+			f := arrFamily(t.Args[0])
+			found = false
+			for _, x := range ic.fam[f] {
+				if x == idx {
+					found = true
+					break
+				}
+			}
+			if !found {
+				ic.fam[f] = append(ic.fam[f], idx)
 			}
 		}
 	}
@@ -161,16 +173,46 @@ func (ic *instCtx) candidates(body, k *Term) []*Term {
 		visited[t] = true
 		if t.Op == "select" && containsTerm(t.Args[1], k, cc) {
 			if g, ok := ic.peel(t.Args[1], k); ok {
-				for _, c := range ic.pool[t.Args[0].Sort] {
+				f := arrFamily(t.Args[0])
+				cands := ic.fam[f]
+				if t.Args[0].hasBV || f == "" || f == "?" {
+					cands = ic.pool[t.Args[0].Sort]
+				}
+				for _, c := range cands {
 					if g == nil {
 						add(c)
 					} else {
 						add(tb.Sub(c, g))
 					}
 				}
-				// address-indexed ghost sets (allocation maps) are queried at byte addresses: use those too
-				if t.Args[0].Sort == BoolAr {
-					for _, c := range ic.pool[ByteAr] {
+				// address-indexed ghost sets (allocation maps) are queried at the addresses of the memory they describe
+				switch f {
+				case "RA":
+					for _, c := range ic.fam["M"] {
+						if g == nil {
+							add(c)
+						} else {
+							add(tb.Sub(c, g))
+						}
+					}
+				case "BA":
+					for _, c := range ic.fam["BH"] {
+						if g == nil {
+							add(c)
+						} else {
+							add(tb.Sub(c, g))
+						}
+					}
+				case "M":
+					for _, c := range ic.fam["RA"] {
+						if g == nil {
+							add(c)
+						} else {
+							add(tb.Sub(c, g))
+						}
+					}
+				case "BH":
+					for _, c := range ic.fam["BA"] {
 						if g == nil {
 							add(c)
 						} else {
@@ -390,7 +432,7 @@ func (e *Engine) propagateEqualities(hyps []*Term) []*Term {
 // Prepare returns quantifier-free hypotheses (the negated goal included) for obligation o.
 func (e *Engine) PrepareQF(o *Obligation) []*Term {
 	tb := e.tb
-	ic := &instCtx{e: e, mulPool: map[string][]*Term{}, pool: map[*Sort][]*Term{}, appArgs: map[string][][]*Term{}, seenIdx: map[*Term]bool{}, skCache: map[*Term]*Term{}}
+	ic := &instCtx{e: e, fam: map[string][]*Term{}, mulPool: map[string][]*Term{}, pool: map[*Sort][]*Term{}, appArgs: map[string][][]*Term{}, seenIdx: map[*Term]bool{}, skCache: map[*Term]*Term{}}
 	all := append([]*Term{}, o.Hyps...)
 	if o.Goal != nil && !o.Cover {
 		all = append(all, tb.Not(o.Goal))
@@ -422,6 +464,9 @@ func (e *Engine) PrepareQF(o *Obligation) []*Term {
 		for _, p := range ic.pool {
 			size += len(p)
 		}
+		for _, p := range ic.fam {
+			size += len(p)
+		}
 		for _, p := range ic.mulPool {
 			size += len(p)
 		}
@@ -436,4 +481,57 @@ func (e *Engine) PrepareQF(o *Obligation) []*Term {
 	// deterministic order of pools is given by traversal order; nothing else to do
 	_ = sort.Strings
 	return out
+}
+
+// arrFamily names the heap component an array term is a version of (M, BH, RA, a typed-heap field, a trace slot ...).
+func arrFamily(t *Term) string {
+	for depth := 0; depth < 200; depth++ {
+		switch t.Op {
+		case "store":
+			t = t.Args[0]
+			continue
+		case "ite":
+			t = t.Args[1]
+			continue
+		case "select":
+			return arrFamily(t.Args[0]) + "[]"
+		case "app":
+			if t.Name == "copyrange" {
+				t = t.Args[0]
+				continue
+			}
+			return "app:" + t.Name
+		case "var":
+			n := t.Name
+			for _, p := range []string{"H0:", "H:", "G0:", "G:", "hv:"} {
+				n = strings.TrimPrefix(n, p)
+			}
+			// sanitised names use '_' for ':'
+			for _, p := range []string{"H0_", "H_", "G0_", "G_", "hv_"} {
+				n = strings.TrimPrefix(n, p)
+			}
+			if i := strings.Index(n, "!"); i >= 0 {
+				n = n[:i]
+			}
+			switch n {
+			case "M0":
+				return "M"
+			case "BH0":
+				return "BH"
+			case "RA0":
+				return "RA"
+			case "BA0":
+				return "BA"
+			case "SB0":
+				return "SB"
+			case "SO0":
+				return "SO"
+			}
+			return n
+		case "bound":
+			return "?"
+		}
+		return "?"
+	}
+	return "?"
 }
